@@ -67,7 +67,20 @@ def check(ctx):
     ps = return_paths(ctx.paths(f))
     pat = Call("Iterator::collect", Call("Iterator::take", Call("Distribution::sample_iter", lambda a: derives_from_self(a, field="element_generator"), lambda a: rng_passthrough(a, 2), nargs=2),
                                         lambda e: self_field(e, "size"), nargs=2), nargs=1)
-    ctx.check(len(ps) == 1 and match(ps[0].ret, pat) and len(ps[0].calls()) == 3, "R18.1", "Generator::sample=sample_iter.take(size).collect", short(ps[0].ret, 5) if ps else "-", f.at(),
+    good = len(ps) == 1 and match(ps[0].ret, pat) and len(ps[0].calls()) == 3
+    if not good:
+        # the same as a counted loop: for _ in 0..self.size { out.push(self.element_generator.sample(rng)) } out
+        from . import ckit as K
+        acc = K.accumulation(ctx, f, lambda e: match(e, Through(Call("IntoIterator::into_iter", Agg("Range::Range", Const(0), lambda x: self_field(x, "size")), nargs=1))) or
+                             match(e, Through(Agg("Range::Range", Const(0), lambda x: self_field(x, "size")))))
+        if acc is not None and len(acc["bodies"]) == 1 and len(acc["done"]) == 1:
+            q, conds, v = acc["bodies"][0]
+            draws = [c for c in q.calls() if callee_is(c, "Distribution::sample", "Rng::sample", "Rng::random", "Rng::random_range", "Rng::random_bool")]
+            good = not conds and v is not None and len(draws) == 1 and K.strip(v, calls=()) == draws[0] and \
+                ((callee_is(draws[0], "Distribution::sample") and derives_from_self(draws[0][3][0], field="element_generator") and rng_passthrough(draws[0][3][1], 2)) or
+                 (callee_is(draws[0], "Rng::sample") and rng_passthrough(draws[0][3][0], 2) and derives_from_self(draws[0][3][1], field="element_generator"))) and \
+                acc["done"][0].end == "return" and K.strip(acc["done"][0].ret, calls=()) == acc["out"]
+    ctx.check(good, "R18.1", "Generator::sample=sample_iter.take(size).collect", short(ps[0].ret, 5) if ps else "-", f.at(),
               bad_detail="expected collect(take(sample_iter(&self.element_generator, rng), self.size)) and nothing else; extracted " + "; ".join(short(p.ret, 8) for p in ps))
     f = ctx.fn("ec_core::distributions::collection::Generator::<C>::new")
     ps = return_paths(ctx.paths(f))
@@ -79,21 +92,28 @@ def check(ctx):
         ctx.check(len(ps) == 1 and match(ps[0].ret, Call("Generator::new", Param(1), Param(2), nargs=2)) and len(ps[0].calls()) == 1, "R18.1", name + "=Generator::new(self,size)", short(ps[0].ret), f.at())
     f = ctx.fn("ec_linear::genome::bitstring::<impl rand::distr::Distribution<ec_linear::genome::bitstring::Bitstring> for ec_core::distributions::collection::Generator<BG>>::sample")
     ps = return_paths(ctx.paths(f))
-    ctx.check(len(ps) == 1 and match(ps[0].ret, Agg("Bitstring::Bitstring", Call("Distribution::sample", Through(Param(1)), lambda a: rng_passthrough(a, 2), nargs=2))) and len(ps[0].calls()) == 1,
+    # `self.sample(rng)` and `rng.sample(self)` are the same call (Rng::sample(d) is d.sample(self) by definition)
+    ctx.check(len(ps) == 1 and (match(ps[0].ret, Agg("Bitstring::Bitstring", Call("Distribution::sample", Through(Param(1)), lambda a: rng_passthrough(a, 2), nargs=2))) or
+                                match(ps[0].ret, Agg("Bitstring::Bitstring", Call("Rng::sample", lambda a: rng_passthrough(a, 2), Through(Param(1)), nargs=2)))) and len(ps[0].calls()) == 1,
               "R18.1", "Bitstring-from-Generator/forwards-and-stores-unmodified", short(ps[0].ret), f.at())
-    term = [b["term"] for b in f.blocks if b["term"]["k"] == "call" and path_ends(b["term"].get("fn") or "", "Distribution::sample")]
+    term = [b["term"] for b in f.blocks if b["term"]["k"] == "call" and (path_ends(b["term"].get("fn") or "", "Distribution::sample") or path_ends(b["term"].get("fn") or "", "Rng::sample"))]
     ctx.check(len(term) == 1 and any(t.get("s") == "std::vec::Vec<bool>" for t in term[0].get("targs", [])), "R18.1", "Bitstring-from-Generator/samples-Vec<bool>", "inner sample is the Vec<bool> collection impl", f.at())
     f = ctx.fn("push::genome::plushy::<impl rand::distr::Distribution<push::genome::plushy::Plushy> for ec_core::distributions::collection::Generator<GG>>::sample")
     ps = return_paths(ctx.paths(f))
-    ok = len(ps) == 1 and (match(ps[0].ret, Agg("Plushy::Plushy", Call("Rng::sample", lambda a: rng_passthrough(a, 2), Through(Param(1)), nargs=2))) or
-                           match(ps[0].ret, Agg("Plushy::Plushy", Call("Distribution::sample", Through(Param(1)), lambda a: rng_passthrough(a, 2), nargs=2)))) and len(ps[0].calls()) == 1
+    sampled = lambda e: match(e, Call("Rng::sample", lambda a: rng_passthrough(a, 2), Through(Param(1)), nargs=2)) or match(e, Call("Distribution::sample", Through(Param(1)), lambda a: rng_passthrough(a, 2), nargs=2))
+    ok = len(ps) == 1 and match(ps[0].ret, Agg("Plushy::Plushy", sampled)) and len(ps[0].calls()) == 1
+    if not ok and len(ps) == 1 and callee_is(ps[0].ret, "Plushy::new") and len(ps[0].ret[3]) == 1 and len(ps[0].calls()) == 2:
+        # Plushy::new(sampled Vec<PushGene>): `new` collects its argument in order (R05.6 / from_iter rule), a Vec collected is that Vec
+        ok = sampled(ps[0].ret[3][0])
     ctx.check(ok, "R18.1", "Plushy-from-Generator/forwards-and-stores-unmodified", short(ps[0].ret) if ps else "-", f.at())
     # FromIterator impls of the workspace genomes collect in order (used by mutators' collect())
     for fid, adt in (("<ec_linear::genome::vector::Vector<T> as std::iter::FromIterator<T>>::from_iter", "Vector::Vector"),
                      ("<push::genome::plushy::Plushy as std::iter::FromIterator<push::genome::plushy::PushGene>>::from_iter", "Plushy::Plushy")):
         f = ctx.fn(fid)
         ps = return_paths(ctx.paths(f))
-        ctx.check(len(ps) == 1 and match(ps[0].ret, Agg(adt, Call("Iterator::collect", Call("IntoIterator::into_iter", Param(1), nargs=1), nargs=1))) and len(ps[0].calls()) == 2,
+        from .ctors import value_of, collected_in_order
+        v = value_of(ctx, f)         # sees through a delegation to the sibling constructor (from_iter -> new or new -> from_iter)
+        ctx.check(len(ps) == 1 and v is not None and match(v, Agg(adt, collected_in_order(Param(1)))) and len(ps[0].calls()) <= 2,
                   "R18.1", adt.split("::")[0] + "::from_iter-collects-in-order", short(ps[0].ret), f.at())
     f = ctx.fn("<ec_linear::genome::bitstring::Bitstring as std::iter::FromIterator<B>>::from_iter")
     ps = return_paths(ctx.paths(f))
@@ -131,7 +151,7 @@ def check(ctx):
         good = False
         how = "-"
         if r is not None:
-            src = lambda a: peel(a, ("Deref::deref",), casts=True) == ("param", 1)
+            src = lambda a: peel(a, ("Deref::deref", "[T; N]::as_slice", "Vec::as_slice"), casts=True) == ("param", 1)
             if match(r, Call(("OneOfCloning::new", "ChooseCloning::new"), src, nargs=1)) and len(ps[0].calls()) <= 2:
                 good, how = True, short(r, 3)
             elif match(r, Call("Result::map_err", Call("Choose::new", src, nargs=1), ANY, nargs=2)):
